@@ -419,6 +419,45 @@ func c01(c *ctx) {
 	c.extra["exhaustive_in_state_session"] = true
 	// raw stream: random bytes, bit flips and truncations of valid datagrams
 	pr := prepare("session")
+	if f := os.Getenv("VERIF_C01_REPLAY"); f != "" {
+		// replay of a recorded datagram sequence (tokens kind:hex): all at once, then with a barrier after every datagram
+		b, _ := os.ReadFile(f)
+		toks := strings.Fields(string(b))
+		barrier := func() bool {
+			_, ok := pr.p.Exchange(sysh.Marshal(message.NewHeartbeatRequest(pr.p.NextSeq(), ie.NewRecoveryTimeStamp(time.Unix(1700000000, 0)), nil)), w.wait)
+			return ok
+		}
+		for _, mode := range []string{"all", "each"} {
+			for i, t := range toks {
+				k := strings.IndexByte(t, ':')
+				if k < 0 || strings.HasPrefix(t, "send-error") {
+					continue
+				}
+				dg, err := hex.DecodeString(t[k+1:])
+				if err != nil {
+					continue
+				}
+				_ = pr.p.SendRaw(dg)
+				if mode == "each" {
+					ok := barrier()
+					fmt.Fprintf(os.Stderr, "replay each %d %s... => barrier %v alive %v\n", i, t[:min(len(t), 60)], ok, !w.s.Exited())
+					if !ok {
+						return
+					}
+				}
+			}
+			ok := barrier()
+			fmt.Fprintf(os.Stderr, "replay %s => barrier %v alive %v\n", mode, ok, !w.s.Exited())
+			if !ok {
+				w.s.Kill()
+				if !w.start() {
+					return
+				}
+				pr = prepare("session")
+			}
+		}
+		return
+	}
 	tp := c01Templates(pr.p.IP, pr.p.Addr)
 	n := c.pick(3000, 300000)
 	rawFailures := 0
@@ -464,6 +503,11 @@ func c01(c *ctx) {
 			// liveness barrier on the same association; the association may have been released by a mutated datagram
 			_, barrier := pr.p.Exchange(sysh.Marshal(message.NewHeartbeatRequest(pr.p.NextSeq(), ie.NewRecoveryTimeStamp(time.Unix(1700000000, 0)), nil)), w.wait)
 			alive := !w.s.Exited()
+			// an association that has collected hundreds of sessions from mutated establishments takes seconds to tear down when a
+			// mutated datagram happens to release it: busy is not wedged - a peer keeps retransmitting, and so does this one
+			for retry := 0; retry < 6 && !barrier && !w.s.Exited(); retry++ {
+				_, barrier = pr.p.Exchange(sysh.Marshal(message.NewHeartbeatRequest(pr.p.NextSeq(), ie.NewRecoveryTimeStamp(time.Unix(1700000000, 0)), nil)), w.wait)
+			}
 			crash := "-"
 			if !alive || !barrier {
 				if w.s.Exited() || w.s.WaitExit(300*time.Millisecond) {
